@@ -376,6 +376,8 @@ class Check:
                 last_case = line[5:]
             elif line.startswith("DONE"):
                 done = True
+            elif line.startswith("NONDET"):
+                self.infra_errors.append(label + ": " + line[:300])
             elif line.startswith("INCOMPLETE"):
                 self.exhaustive = False
                 self.notes.append(label + ": " + line[:200])
